@@ -144,4 +144,64 @@ theorem list_attribute_errors_at_substatement (s : Stmt) : ∀ x ∈ (listAttrOf
     (∃ v, s.one? "max-elements" = some v ∧ x = Err.at_ v "bad-max-elements") ∨
     (∃ v, s.one? "min-elements" = some v ∧ x = Err.at_ v "bad-min-elements") := listAttrOf_errs s
 
+/-! ## AST builder -/
+
+section AstBuilder
+open Goyang.Model.Ast Goyang.Spec.Ast Goyang.Lemmas.PositionsAst
+
+/-- Every position in an error of the AST builder is the start of the statement handed to it or
+of one of its transitive substatements — the one the error is about (`Ast.Blames`): the statement
+whose keyword has no node type, the unknown substatement itself, the statement that lacks a
+mandatory substatement (or holds one that is mandatory for another keyword only). -/
+theorem build_error_positions {tbl : Schema} (h : WF tbl) (s : Ast.Stmt) (p : Option Nat) (e : Ast.Err)
+    (pq : Nat × Nat) (hb : build tbl s p = .error e) (hpos : e.pos = some pq) :
+    ∃ c, Ast.Within c s ∧ pq = (c.line, c.col) ∧ Ast.Blames tbl s e.cls c := by
+  obtain ⟨c, hc, hpq⟩ := build_blames (Goyang.Lemmas.Ast.WF.toP h) s p e pq hb hpos
+  exact ⟨c, blames_within hc, hpq, hc⟩
+
+/-- Unknown field ⇒ the unknown substatement itself: a positioned `unknown … field` error stands
+at a substatement `c` of a statement `par` of the tree in whose context the keyword of `c` is
+not known (and carries no prefix) — or, for the check after the loop, at the statement that holds
+a substatement mandatory for another keyword only (`belongs-to` in a `module`). -/
+theorem unknown_field_position {tbl : Schema} (h : WF tbl) (s : Ast.Stmt) (p : Option Nat) (e : Ast.Err)
+    (pq : Nat × Nat) (hb : build tbl s p = .error e) (hpos : e.pos = some pq) (hc : e.cls = .unknownField) :
+    ∃ c, pq = (c.line, c.col) ∧
+      ((∃ par T, Ast.Within par s ∧ c ∈ par.subs ∧ Ast.nodeType tbl par = some T ∧
+          knownIn tbl T c.kw = false ∧ prefixed c.kw = false) ∨
+       (∃ T f, Ast.Within c s ∧ Ast.nodeType tbl c = some T ∧ f ∈ T.fields ∧ Ast.foreignFor tbl c f = true ∧
+          subsOf tbl f c.subs ≠ [])) := by
+  obtain ⟨c, _, hpq, hbl⟩ := build_error_positions h s p e pq hb hpos
+  rw [hc] at hbl
+  refine ⟨c, hpq, ?_⟩
+  cases hbl with
+  | unknownField h1 h2 h3 h4 h5 => exact Or.inl ⟨_, _, h1, h2, h3, h4, h5⟩
+  | foreign h1 h2 h3 h4 h5 => exact Or.inr ⟨_, _, h1, h2, h3, h4, h5⟩
+
+/-- Missing required ⇒ the statement that lacks it. -/
+theorem missing_required_position {tbl : Schema} (h : WF tbl) (s : Ast.Stmt) (p : Option Nat) (e : Ast.Err)
+    (pq : Nat × Nat) (hb : build tbl s p = .error e) (hpos : e.pos = some pq) (hc : e.cls = .missing) :
+    ∃ c T f, Ast.Within c s ∧ pq = (c.line, c.col) ∧ Ast.nodeType tbl c = some T ∧ f ∈ T.fields ∧
+      Ast.mandatoryFor tbl c f = true ∧ subsOf tbl f c.subs = [] := by
+  obtain ⟨c, _, hpq, hbl⟩ := build_error_positions h s p e pq hb hpos
+  rw [hc] at hbl
+  cases hbl with
+  | missing h1 h2 h3 h4 h5 => exact ⟨c, _, _, h1, hpq, h2, h3, h4, h5⟩
+
+/-- Unknown statement ⇒ that statement. -/
+theorem unknown_statement_position {tbl : Schema} (h : WF tbl) (s : Ast.Stmt) (p : Option Nat) (e : Ast.Err)
+    (pq : Nat × Nat) (hb : build tbl s p = .error e) (hpos : e.pos = some pq) (hc : e.cls = .unknownStmt) :
+    ∃ c, Ast.Within c s ∧ pq = (c.line, c.col) ∧ typeFor tbl c.kw = none := by
+  obtain ⟨c, _, hpq, hbl⟩ := build_error_positions h s p e pq hb hpos
+  rw [hc] at hbl
+  cases hbl with
+  | unknownStmt h1 h2 => exact ⟨c, h1, hpq, h2⟩
+
+/-- `already set` errors (a second occurrence of a single-valued substatement) carry no position;
+neither do the errors that stand for a Go panic. -/
+theorem already_set_unpositioned {tbl : Schema} (s : Ast.Stmt) (p : Option Nat) (e : Ast.Err)
+    (hb : build tbl s p = .error e) (hc : e.cls = .alreadySet) : e.pos = none :=
+  build_alreadySet_unpositioned s p e hb hc
+
+end AstBuilder
+
 end Goyang.Props.C16Sem
